@@ -187,6 +187,12 @@ fn gen_hfields(rng: &mut Rng, big: bool) -> Vec<(String, Vec<u8>)> {
     };
     (0..n)
         .map(|_| {
+            if rng.chance(1, 12) {
+                // the only regular field of the static table that has a value: the value itself, extensions,
+                // prefixes and case variants of it (a full match must be exact)
+                let v = *rng.pick(&["gzip, deflate", "gzip, deflate, br", "gzip, deflate, br, zstd", "gzip", "gzip, deflat", "GZIP, DEFLATE", "gzip, deflate ", "gzip,deflate", ""]);
+                return ("accept-encoding".to_string(), v.as_bytes().to_vec());
+            }
             let name = rng.pick(NAME_POOL).to_string();
             let vlen = match rng.below(8) {
                 0 => 0,
@@ -227,8 +233,8 @@ pub fn gen_frames(rng: &mut Rng, n: usize, hpack_heavy: bool, big_sizes: bool) -
                 v.push(GenFrame::Data { sid, len, eos: rng.chance(1, 3), seed: rng.next_u64() });
             }
             1 => {
-                let method = rng.pick(&["GET", "POST", "PUT", "DELETE", "HEAD", "OPTIONS", "PATCH", "CONNECT", "PROPFIND"]).to_string();
-                let uri = if method == "CONNECT" { "vp.test:443".to_string() } else { format!("{}://vp.test{}", rng.pick(&["https", "http"]), rng.pick(&["/", "/index.html", "/a/b?c=1", "/x/y/z/0123456789"])) };
+                let method = rng.pick(&["GET", "POST", "PUT", "DELETE", "HEAD", "OPTIONS", "PATCH", "CONNECT", "PROPFIND", "GETS", "POS"]).to_string();
+                let uri = if method == "CONNECT" { "vp.test:443".to_string() } else { format!("{}://vp.test{}", rng.pick(&["https", "http"]), rng.pick(&["/", "/index.html", "/a/b?c=1", "/x/y/z/0123456789", "/index.html?", "/index.htm", "//"])) };
                 v.push(GenFrame::Request { sid, method, uri, fields: gen_hfields(rng, big), eos: rng.chance(1, 2) });
                 sid += 2;
             }
@@ -280,10 +286,11 @@ fn data_payload(seed: u64, len: usize) -> Vec<u8> {
     (0..len).map(|i| crate::apps::actors::pattern_byte(seed as u32, i as u64)).collect()
 }
 
-fn to_h2(g: &GenFrame) -> Option<Frame<Bytes>> {
+fn to_h2(g: &GenFrame) -> Option<Frame<crate::apps::seg::Seg>> {
     Some(match g {
         GenFrame::Data { sid, len, eos, seed } => {
-            let mut d = frame::Data::new(StreamId::from(*sid), Bytes::from(data_payload(*seed, *len)));
+            // a payload of non-contiguous pieces (the codec has separate paths for the front of a payload and its rest)
+            let mut d = frame::Data::new(StreamId::from(*sid), crate::apps::seg::Seg::from_bytes(Bytes::from(data_payload(*seed, *len))));
             d.set_end_stream(*eos);
             Frame::Data(d)
         }
@@ -383,7 +390,7 @@ fn multiset(v: &[Field]) -> std::collections::BTreeMap<Vec<u8>, Vec<Vec<u8>>> {
 
 /// Drive a write-side codec with a list of generated frames. Returns the bytes written, or a failure description.
 fn serialise(frames: &[GenFrame], io: ScriptIo, initial_max_frame: usize) -> Result<(ScriptIo, Vec<String>), String> {
-    let mut codec: Codec<ScriptIo, Bytes> = Codec::new(io);
+    let mut codec: Codec<ScriptIo, crate::apps::seg::Seg> = Codec::new(io);
     codec.set_max_send_frame_size(initial_max_frame);
     let wk = noop_waker();
     let mut cx = Context::from_waker(&wk);
